@@ -14,9 +14,123 @@ import (
 func init() { register("C01", runC01) }
 
 type c01Case struct {
-	Profile string `json:"profile,omitempty"` // canonical token form
-	Bytes   string `json:"bytes,omitempty"`   // hex, for the accepted-bytes stream
+	Profile  string `json:"profile,omitempty"`   // canonical token form
+	Bytes    string `json:"bytes,omitempty"`     // hex, for the accepted-bytes stream
+	EditSeed uint64 `json:"edit_seed,omitempty"` // history stream: serialize, edit in memory (seeded), serialize again
 }
+
+// editProfile applies 1..4 validity-preserving in-memory edits to p (the kind of thing pprof
+// itself does between two serializations of one *Profile: filters, pruning, aggregation,
+// symbolization): drop a location's mapping, retarget or drop lines, drop/relabel samples,
+// clear header fields, remove a mapping/function that became unused.
+func editProfile(r *Rng, p *profile.Profile) {
+	for k, n := 0, 1+r.Intn(4); k < n; k++ {
+		switch r.Intn(9) {
+		case 0:
+			if len(p.Location) > 0 {
+				p.Location[r.Intn(len(p.Location))].Mapping = nil
+			}
+		case 1:
+			if len(p.Location) > 0 && len(p.Mapping) > 0 {
+				p.Location[r.Intn(len(p.Location))].Mapping = p.Mapping[r.Intn(len(p.Mapping))]
+			}
+		case 2:
+			if len(p.Location) > 0 {
+				l := p.Location[r.Intn(len(p.Location))]
+				if len(l.Line) > 0 {
+					l.Line = l.Line[:len(l.Line)-1]
+				}
+			}
+		case 3:
+			if len(p.Location) > 0 && len(p.Function) > 0 {
+				l := p.Location[r.Intn(len(p.Location))]
+				if len(l.Line) > 0 {
+					l.Line[r.Intn(len(l.Line))].Function = p.Function[r.Intn(len(p.Function))]
+				}
+			}
+		case 4:
+			if len(p.Sample) > 0 {
+				i := r.Intn(len(p.Sample))
+				p.Sample = append(p.Sample[:i:i], p.Sample[i+1:]...)
+			}
+		case 5:
+			if len(p.Sample) > 0 {
+				s := p.Sample[r.Intn(len(p.Sample))]
+				s.Label, s.NumLabel, s.NumUnit = nil, nil, nil
+				if len(s.Location) > 1 {
+					s.Location = s.Location[1:]
+				}
+			}
+		case 6:
+			p.PeriodType = nil
+			p.Comments = nil
+			p.DropFrames, p.KeepFrames, p.DocURL, p.DefaultSampleType = "", "", "", ""
+		case 7:
+			p.TimeNanos, p.DurationNanos, p.Period = 0, 0, 0
+		case 8:
+			for _, f := range p.Function {
+				f.Name, f.SystemName, f.Filename = "", "", ""
+			}
+			for _, m := range p.Mapping {
+				m.File, m.BuildID = "", ""
+			}
+		}
+	}
+}
+
+// c01History: the property must hold for every serialization of a *Profile, not only the
+// first one: serialize p, edit it in memory, serialize it again; the second image must be what
+// a freshly built identical profile serializes to (the model is a pure function of the
+// exported fields, so any residue of the first serialization is a disagreement AND a violation).
+func c01History(c *Ctx, canon1 string, editSeed uint64) {
+	p, err := ParseCanon(canon1)
+	if err != nil {
+		c.Res.HarnessError = "ParseCanon: " + err.Error()
+		return
+	}
+	cs := c01Case{Profile: canon1, EditSeed: editSeed}
+	if _, pn := writeU(p); pn != "" {
+		return // reported by c01Profile
+	}
+	var cp *profile.Profile
+	if pn := safely(func() { cp = p.Copy() }); pn != "" || cp == nil {
+		return
+	}
+	editProfile(NewRng(editSeed), p)
+	if p.CheckValid() != nil {
+		c.Res.Hit("history-edit-invalid")
+		return
+	}
+	canon2 := Canon(p)
+	expected := c.Drv.Ask("codec.normalize " + canon2)
+	b2, pn := writeU(p)
+	if pn != "" {
+		c.Violation("C01/history/write-panic", "second serialization of an edited profile panics: "+pn, cs)
+		return
+	}
+	q, err := profile.ParseUncompressed(b2)
+	if err != nil {
+		c.Violation("C01/history/parse-error", "parse(write(p)) fails on the second serialization: "+err.Error(), cs)
+		return
+	}
+	if Canon(q) != expected {
+		c.Violation("C01/history/"+diffField(Canon(q), expected), "second serialization of an edited in-memory profile does not round-trip to normalize(p)", cs)
+	}
+	fresh, _ := ParseCanon(canon2)
+	bf, _ := writeU(fresh)
+	if !bytes.Equal(bf, b2) {
+		c.Violation("C01/history/bytes-differ-from-fresh", "an edited profile serializes differently from an identical freshly built one", cs)
+	}
+	var cp2 *profile.Profile
+	if pn := safely(func() { cp2 = p.Copy() }); pn == "" && cp2 != nil && Canon(cp2) != expected {
+		c.Violation("C01/history/copy-"+diffField(Canon(cp2), expected), "Copy of an edited profile differs from normalize(p)", cs)
+	}
+	c.Res.ModelCompared++
+	if mp := c.Drv.Ask("codec.parse " + hexTok(b2)); mp != "ok "+expected {
+		c.Disagree("C01/history/model-parse/"+firstWord(mp), "model parser on Go's second-serialization bytes does not give normalize(p)", "correspondence Codec.serialize ~ WriteUncompressed (purity: output depends on exported fields only)", cs)
+	}
+}
+
 
 // safely runs f, converting a panic into an error string.
 func safely(f func()) (panicked string) {
@@ -239,17 +353,20 @@ var c01Strategies = []struct {
 	{"weird-strings", GenOpts{WeirdStrings: true, Labels: true, Header: true}},
 	{"extreme", GenOpts{ExtremeValues: true, SparseIDs: true, Labels: true, Header: true, MaxSampleTypes: 5, AllowNoTypes: true}},
 	{"shapes", GenOpts{EmptyStacks: true, MaxLines: 5, MaxDepth: 12, MaxSamples: 30, Labels: true, WeirdStrings: true}},
+	{"defaults", GenOpts{Labels: true, Header: true, MaxSampleTypes: 4, AllDefault: true}},
 }
 
 func runC01(c *Ctx) {
-	c.Res.Rule = "structured valid profiles from 5 strategies (plain, sparse/huge ids, weird strings, extreme ints, shapes) + mutated accepted byte strings; non-trivial = has ≥1 sample with ≥1 location having ≥1 line (profile stream) or accepted by the parser with ≥1 sample (byte stream); distinct by canonical text"
+	c.Res.Rule = "structured valid profiles from 6 strategies (plain, sparse/huge ids, weird strings, extreme ints, shapes, all-default elements), each also as a 2-step history (serialize, seeded in-memory edit, serialize again) + mutated accepted byte strings; non-trivial = has ≥1 sample with ≥1 location having ≥1 line (profile stream) or accepted by the parser with ≥1 sample (byte stream); distinct by canonical text"
 	if c.Replay != "" {
 		var cs c01Case
 		if err := c.LoadReplay(&cs); err != nil {
 			c.Res.HarnessError = err.Error()
 			return
 		}
-		if cs.Profile != "" {
+		if cs.Profile != "" && cs.EditSeed != 0 {
+			c01History(c, cs.Profile, cs.EditSeed)
+		} else if cs.Profile != "" {
 			c01Profile(c, cs.Profile)
 		} else {
 			b, _ := hex.DecodeString(cs.Bytes)
@@ -278,6 +395,11 @@ func runC01(c *Ctx) {
 			c.Res.Sample(map[string]string{"strategy": st.name, "shape": describe(p), "profile": trunc(canon)})
 		}
 		c01Profile(c, canon)
+		for k := 0; k < 2; k++ {
+			es := r.U64() | 1
+			c01History(c, canon, es)
+			c.Res.Hit("history-cases")
+		}
 		// byte stream: mutate the valid encoding
 		b, _ := writeU(p)
 		for k := 0; k < 3; k++ {
